@@ -168,6 +168,11 @@ def SubOK2 (song : Song) (m : SAMap) (srcT srcStart : Nat) (isBal : Nat → Bool
     ∃ dstT dstPos wl len0 ll, findMatchLength song m srcT srcStart dstT dstPos wl = .ok (len0, ll) ∧ len ≤ len0 ∧
       (srcT < dstT ∨ (dstT = srcT ∧ srcStart + len ≤ dstPos))
 
+theorem SubOK2.mono {song : Song} {m : SAMap} {srcT srcStart : Nat} {isBal isBal' : Nat → Bool} {len : Nat}
+    (h : SubOK2 song m srcT srcStart isBal' len) (hb : ∀ len, isBal' len = true → isBal len = true) :
+    SubOK2 song m srcT srcStart isBal len :=
+  ⟨h.1, hb _ h.2.1, h.2.2⟩
+
 theorem SubOK2.toSubOK {song : Song} {m : SAMap} {srcT srcStart : Nat} {isBal : Nat → Bool} {len : Nat}
     (h : SubOK2 song m srcT srcStart isBal len) : SubOK song m srcT srcStart isBal len := by
   obtain ⟨h1, h2, dstT, dstPos, wl, len0, ll, hf, hle, _⟩ := h
@@ -244,6 +249,15 @@ theorem midBody_cnt2 {song : Song} {m : SAMap} {srcT srcStart : Nat} {dst : List
   · exact jpSame_cnt2 hsc hr
   · exact jpSame_cnt2 hsc hr
 
+theorem midBodyS_cnt2 {song : Song} {m : SAMap} {sa : SA} {srcT srcStart : Nat} {dst : List Event} {isBal : Nat → Bool}
+    {a : Nat} {s : Match × Counter × Counter × Int × Bool}
+    (hsc : CInv (SubOK2 song m srcT srcStart isBal) s.2.1)
+    {r : ForInStep (Match × Counter × Counter × Int × Bool)}
+    (hr : midBodyS song m sa srcT srcStart srcT dst isBal a s = .ok r) :
+    ∃ b', r = .yield b' ∧ CInv (SubOK2 song m srcT srcStart isBal) b'.2.1 := by
+  obtain ⟨lv, hr'⟩ := midBodyS_cases hr
+  exact midBody_cnt2 (s := (s.1, s.2.1, s.2.2.1, s.2.2.2.1, lv)) hsc hr'
+
 theorem otherBody_cnt2 {song : Song} {m : SAMap} {srcT srcStart dstT : Nat} {isBal : Nat → Bool}
     (hlt : srcT < dstT)
     {dstPos : Nat} {s : Counter × Counter} (hsc : CInv (SubOK2 song m srcT srcStart isBal) s.1)
@@ -271,9 +285,9 @@ theorem otherBody_cnt2 {song : Song} {m : SAMap} {srcT srcStart dstT : Nat} {isB
     · simp only [pure, Except.pure, Except.ok.injEq] at hr
       exact ⟨_, hr.symm, hb⟩
 
-theorem trackBody_cnt2 {song : Song} {m : SAMap} {srcT srcStart : Nat} {isBal : Nat → Bool}
+theorem trackBody_cnt2 {song : Song} {m : SAMap} {sa : SA} {srcT srcStart : Nat} {isBal : Nat → Bool}
     {x : Nat × List Event} {s : Match × Counter} (hsc : CInv (SubOK2 song m srcT srcStart isBal) s.2)
-    {r : ForInStep (Match × Counter)} (hr : trackBody song m srcT srcStart isBal x s = .ok r) :
+    {r : ForInStep (Match × Counter)} (hr : trackBody song m sa srcT srcStart isBal x s = .ok r) :
     ∃ b', r = .yield b' ∧ CInv (SubOK2 song m srcT srcStart isBal) b'.2 := by
   unfold trackBody at hr
   split at hr
@@ -288,7 +302,7 @@ theorem trackBody_cnt2 {song : Song} {m : SAMap} {srcT srcStart : Nat} {isBal : 
     rw [heq] at hr1
     exact forIn_inv' _ (fun s : Match × Counter × Counter × Int × Bool =>
       CInv (SubOK2 song m srcT srcStart isBal) s.2.1) _ _ hsc
-      (fun _ _ b hb r hr => midBody_cnt2 hb hr) r1 hr1
+      (fun _ _ b hb r hr => midBodyS_cnt2 hb hr) r1 hr1
   · rename_i hne
     obtain ⟨r1, hr1, hr⟩ := bind_ok hr
     simp only [pure, Except.pure, Except.ok.injEq] at hr
@@ -296,20 +310,23 @@ theorem trackBody_cnt2 {song : Song} {m : SAMap} {srcT srcStart : Nat} {isBal : 
     exact forIn_inv' _ (fun s : Counter × Counter => CInv (SubOK2 song m srcT srcStart isBal) s.1) _ _ hsc
       (fun _ _ b hb r hr => otherBody_cnt2 (by omega) hb hr) r1 hr1
 
-/-- **`find_match`, the subroutine candidate, with a counted occurrence** -/
-theorem findMatch_subOK2 {song : Song} {m : SAMap} {srcT srcStart : Nat} {mt : Match} {src : List Event}
+/-- **`find_match`, the subroutine candidate, with a counted occurrence** (`bal` = the `balanced`
+vector the run computed) -/
+theorem findMatch_subOK2_bal {song : Song} {m : SAMap} {srcT srcStart : Nat} {mt : Match} {src : List Event}
     (hsrc : song.track? srcT = some src) (h : findMatch song m srcT srcStart = .ok mt) :
-    0 < mt.subScore →
-      SubOK2 song m srcT srcStart (fun len => ((balancedPrefixes src srcStart)[len]?).getD false) mt.subLength := by
+    ∃ bal, sourcePrefixes (getSA m srcT) src srcStart = .ok bal ∧ (0 < mt.subScore →
+      SubOK2 song m srcT srcStart (fun len => (bal[len]?).getD false) mt.subLength) := by
   rw [findMatch_eq song m srcT srcStart src hsrc] at h
+  obtain ⟨bal, hbal, h⟩ := bind_ok h
+  refine ⟨bal, hbal, ?_⟩
   obtain ⟨s, hs, h⟩ := bind_ok h
   obtain ⟨mt2, h2, h⟩ := bind_ok h
   simp only [pure, Except.pure, Except.ok.injEq] at h
   subst h
   -- the counter holds only counted lengths; the subroutine score is only written by the final loop
-  have hQ1 : CInv (SubOK2 song m srcT srcStart (fun len => ((balancedPrefixes src srcStart)[len]?).getD false)) s.2 :=
+  have hQ1 : CInv (SubOK2 song m srcT srcStart (fun len => (bal[len]?).getD false)) s.2 :=
     forIn_inv' _ (fun s : Match × Counter =>
-      CInv (SubOK2 song m srcT srcStart (fun len => ((balancedPrefixes src srcStart)[len]?).getD false)) s.2) _ _
+      CInv (SubOK2 song m srcT srcStart (fun len => (bal[len]?).getD false)) s.2) _ _
       (fun p hp => by simp at hp) (fun x _ b hb r hr => trackBody_cnt2 hb hr) s hs
   have hQ2 : s.1.subScore = 0 := by
     refine forIn_inv' _ (fun s : Match × Counter => s.1.subScore = 0) _ _ rfl ?_ s hs
@@ -324,10 +341,11 @@ theorem findMatch_subOK2 {song : Song} {m : SAMap} {srcT srcStart : Nat} {mt : M
       refine ⟨_, hr.symm, ?_⟩
       refine forIn_inv' _ (fun s : Match × Counter × Counter × Int × Bool => s.1.subScore = 0) _ _ hb ?_ r1 hr1
       intro a _ c hc r hr
+      obtain ⟨lv0, hr⟩ := midBodyS_cases hr
       unfold midBody at hr
       simp only at hr
       have key : ∀ ld lv, jpSame song m srcT srcStart x.1
-          (fun len => ((balancedPrefixes src srcStart)[len]?).getD false) a c.1 c.2.1 c.2.2.1 ld lv = .ok r →
+          (fun len => (bal[len]?).getD false) a c.1 c.2.1 c.2.2.1 ld lv = .ok r →
           ∃ b', r = .yield b' ∧ b'.1.subScore = 0 := by
         intro ld lv hj
         obtain ⟨mt', sc', last', hr', hmt⟩ := jpSame_spec hj
@@ -348,12 +366,12 @@ theorem findMatch_subOK2 {song : Song} {m : SAMap} {srcT srcStart : Nat} {mt : M
       simp only [pure, Except.pure, Except.ok.injEq] at hr
       exact ⟨_, hr.symm, hb⟩
   have hsorted : ∀ x ∈ (s.2.toArray.qsort (fun a b => a.1 < b.1)).toList,
-      SubOK2 song m srcT srcStart (fun len => ((balancedPrefixes src srcStart)[len]?).getD false) x.1 := by
+      SubOK2 song m srcT srcStart (fun len => (bal[len]?).getD false) x.1 := by
     intro x hx
     have := (qsort_perm s.2.toArray (fun a b => a.1 < b.1)).mem_iff.1 hx
     exact hQ1 x (by simpa using this)
   exact forIn_inv' finalBody (fun mt' : Match => 0 < mt'.subScore →
-      SubOK2 song m srcT srcStart (fun len => ((balancedPrefixes src srcStart)[len]?).getD false) mt'.subLength) _
+      SubOK2 song m srcT srcStart (fun len => (bal[len]?).getD false) mt'.subLength) _
     { s.1 with trackId := srcT, position := srcStart }
     (fun h0 => by
       have : (0 : Int) < s.1.subScore := h0
@@ -365,5 +383,14 @@ theorem findMatch_subOK2 {song : Song} {m : SAMap} {srcT srcStart : Nat} {mt : M
         exact ⟨_, hr.symm, fun _ => hsorted a ha⟩
       · simp only [pure, Except.pure, Except.ok.injEq] at hr
         exact ⟨_, hr.symm, hb⟩) mt2 h2
+
+/-- **`find_match`, the subroutine candidate, with a counted occurrence** -/
+theorem findMatch_subOK2 {song : Song} {m : SAMap} {srcT srcStart : Nat} {mt : Match} {src : List Event}
+    (hsrc : song.track? srcT = some src) (h : findMatch song m srcT srcStart = .ok mt) :
+    0 < mt.subScore →
+      SubOK2 song m srcT srcStart (fun len => ((balancedPrefixes src srcStart)[len]?).getD false) mt.subLength := by
+  obtain ⟨bal, hbal, h2⟩ := findMatch_subOK2_bal hsrc h
+  intro hp
+  exact (h2 hp).mono (fun len hl => (sourcePrefixes_spec hbal len hl).1)
 
 end Ctrmml.OptSteps
